@@ -15,6 +15,14 @@ func checkC02(c *Ctx) {
 	c.Decides("CONTRA-IDX: no constant index on a value follows a length test on that value whose failing branch does not leave; no index is used after being decremented past the loop guard that bounded it; CONTRA-NIL: in the readers and in the cone of the operations applied to a delivered tree (ReinitIndexes, Newick, Nodes, Edges, Tips and callees) no pointer that the function itself compares with nil is dereferenced where no successful nil test protects it")
 	c.Decides("GO-CLOSE/ERRFLOW: the reader goroutine closes its channel on every path, and every parse error reaches a record's Err before that (shared with C13/C11)")
 	c.DoesNotDecide("absence of all runtime panics (only those contradicting the function's own guard are decided; index sites the compiler cannot prove are not reported), stack exhaustion on deeply nested input, memory; encoding/xml, encoding/json, bufio and strconv are trusted not to panic or hang")
+	c.Decides("ID-GIVEN: every node (NewNode) and branch (ConnectNodes) a reader creates receives SetId in the statement list that creates it (the ids index per-node and per-branch tables of the library)")
+	c.idGiven("ID-GIVEN", c.AllFuncs("io/newick", "io/phyloxml", "io/nextstrain"), "Every delivered tree can be traversed, indexed and written back without crashing")
+	c.Floor("ID-GIVEN", 6)
+	c.Decides("TREE-ON-SUCCESS (go/cfg): the Parse function of a reader with a named tree result never returns with a nil error before that result is assigned (the caller always receives a tree or an error)")
+	for _, pk := range []string{"io/newick", "io/nexus", "io/phyloxml", "io/nextstrain"} {
+		c.treeOnSuccess("TREE-ON-SUCCESS", c.Func(pk, "Parser", "Parse"), "reading terminates and either reports an error or delivers trees")
+	}
+	c.Floor("TREE-ON-SUCCESS", 1)
 	c.Decides("FIRST (shared with C13): PhyloXML/Nextstrain FirstTree returns the object the converter filled together with the converter's error, and creates that tree only where a source element exists (an empty document gives nil, which the entry points test)")
 	c.firstTreeConv("io/phyloxml", "PhyloXML")
 	c.firstTreeConv("io/nextstrain", "Nextstrain")
